@@ -47,6 +47,7 @@ from .. import fx_likeobs as fo
 from .. import fx_likegrid as fg
 from .. import fx_likehist as fh
 from .. import fx_likenorm as fn
+from .. import fx_likelayers as fy
 from .. import history
 
 SAMPLERS = ('nestle', 'multinest', 'polychord')
@@ -338,15 +339,17 @@ def make_sim_cfg(layout, fault, nanfault, depth):
 # ----------------------------------------------------------------------------------------------
 
 def grid_class(v):
-    return 'grid:%s%s%s' % (v['fam'], ':widths>2x' if v['growth2'] else '', ':gaps' if v['gap'] else '')
+    return 'grid:%s%s%s%s' % (v['fam'], ':widths>2x' if v['growth2'] else '', ':gaps' if v['gap'] else '',
+                              ':overlapping' if v.get('overlapping') else '')
 
 
-def run_grid_vectors(ctx, cfg):
+def run_grid_vectors(ctx, cfg, res=None):
     """Design check of the clipping contract + exported vectors: every layout TLC generates is realised as a real
     BaseSpectrum (-> real FluxBinner) over a real SimpleForwardModel whose native grid is the specification's
     (wider than every observation), and the callback of each wrapper is compared with the chi2 terms TLC computed
     from the FULL native grid by the overlap-weighted mean."""
-    res = ctx.check_spec('exhaustive-likegrid', 'MC_LikeGrid', cfg)
+    if res is None:            # (run() starts this TLC run in the background and hands its result over)
+        res = ctx.check_spec('exhaustive-likegrid', 'MC_LikeGrid', cfg)
     vecs = res.tagged('VEC')
     if len(vecs) < 60:
         raise Machinery('MC_LikeGrid exported %d vectors only' % len(vecs))
@@ -391,6 +394,9 @@ def run_grid_vectors(ctx, cfg):
             ctx.traces += 1
     finally:
         shutil.rmtree(tmpdir, ignore_errors=True)
+    novl = sum(1 for v in vecs if v['inside'] and v.get('overlapq', 0) > 0)
+    if 'ovl' in fams and novl < 6:
+        raise Machinery('vacuous: only %d judged layouts with bins that overlap each other' % novl)
     ctx.note('grid layouts: %d vectors, %d judged (%d of them with a clip that removes native points), %d outside the '
              'contract of the specified window; per family (inside, outside): %r' %
              (len(vecs), len(vecs) - unjudged, clipped, unjudged, fams))
@@ -513,12 +519,21 @@ class RealWorld(object):
     # (log10 ranges for linear-mode parameters, linear ranges for the log-mode mixing ratios)
     CROSS = {'planet_radius': (-0.125, 0.125), 'T': (2.75, 3.25), 'T_surface': (3.0, 3.25), 'T_point1': (2.75, 3.375),
              'T_top': (2.75, 3.125), 'H2O': (0.125, 1.125), 'CH4': (0.125, 0.875), 'CO2': (0.125, 1.125),
-             'CO': (0.125, 0.875)}
+             'CO': (0.125, 0.875), 'H2O_surface': (0.125, 1.125), 'H2O_top': (0.125, 1.125)}
     TRACKED = {'isothermal': ['planet_radius', 'T', 'H2O', 'CH4', 'planet_mass'],
                'npoint': ['planet_radius', 'T_surface', 'T_point1', 'T_top', 'P_point1', 'H2O', 'CH4', 'planet_mass'],
                'wide': ['planet_radius', 'T', 'CO2', 'CO', 'planet_mass']}
 
-    def __init__(self, rng, sampler, tmpdir, wide=None):
+    # round 4: layer-dependent gas profiles (surface and top values fitted), prior boundaries at the far ends of the
+    # documented domain through every public route that builds a log-space prior
+    LAYER_CANDS = [('H2O_surface', 'log', (-8.0, 1.0)), ('H2O_top', 'log', (-8.0, 1.0))]
+    EXTREME_ROUTES = ('default-log-bounds', 'loguniform-lin_bounds', 'loguniform-bounds', 'set_mode-log',
+                      'loggauss-lin_mean', 'set_mode-linear', 'uniform-bounds')
+    EXTREME_LOW = (-30.0, -20.5, -15.0, -13.0, -12.125)         # exponents of the lower / upper boundary
+    EXTREME_HIGH = (-3.0, 0.0, 5.0, 12.5, 20.0)
+    EXTREME_LIN = ((-20000.0, 20000.0), (0.0, 16384.0), (-4096.0, 0.0))
+
+    def __init__(self, rng, sampler, tmpdir, wide=None, fmt='4col', layered=None, extreme=None):
         from taurex.core.priors import Uniform, LogUniform, Gaussian, LogGaussian
         from taurex.data.spectrum.array import ArraySpectrum
         self.rng = rng
@@ -526,34 +541,73 @@ class RealWorld(object):
         self.kind = 'wide' if wide else rng.choice(['isothermal', 'isothermal', 'npoint'])
         self.layout = wide or 'narrow'
         self.wide = wide
+        self.fmt, self.fmt_used, self.overlap_cells = fmt, '4col', 0.0
+        self.layered = layered if self.kind != 'wide' else None
+        self.extreme = extreme
         if self.kind == 'wide':
             self.model = fg.make_wide_transmission()
             self.twin = fg.make_wide_transmission()
+            gases = {'CO2': 'constant', 'CO': 'constant'}
+        elif self.layered:
+            # H2O is a layer-dependent profile: a vector can push only PART of the atmosphere above unity
+            self.model = fy.make_layered_transmission(self.kind, self.layered)
+            self.twin = fy.make_layered_transmission(self.kind, self.layered)
+            gases = {'H2O': self.layered, 'CH4': 'constant'}
         else:
             self.model = fx.make_transmission(self.kind)
             self.twin = fx.make_transmission(self.kind)
+            gases = {'H2O': 'constant', 'CH4': 'constant'}
         if self.kind == 'npoint':
             for m in (self.model, self.twin):
                 m._temperature_profile._limit_slope = 450.0
         self.fault = fl.nan_contribution_class()()
         self.model.add_contribution(self.fault)
         self.model.build()
+        cands = list(self.CANDS[self.kind])
+        tracked = list(self.TRACKED[self.kind])
+        if self.layered:
+            cands = [c for c in cands if c[0] != 'H2O'] + self.LAYER_CANDS
+            tracked = [n for n in tracked if n != 'H2O'] + [c[0] for c in self.LAYER_CANDS]
+        self.tracked = tracked
         # the reference point the data of every observation of this world are generated at: the initial values
-        self.ref_values = {n: float(self.twin[n]) for n in self.TRACKED[self.kind]}
+        self.ref_values = {n: float(self.twin[n]) for n in tracked}
         self.obspar = rng.random() < 0.4
         self.tmpdir = tmpdir
         self.nobs = 0
         self.obs_setup = []               # what the user did to the OBSERVATION's parameters through the optimizer
         self.build_observation()
+        # per-layer totals of the non-fill gases a vector describes: separate gas-profile objects on the model's pressure grid
+        self.layers = fy.LayerOracle(gases, {n: float(self.twin[n]) for n in self.twin.fittingParameters
+                                             if self.is_gas(n)}, self.twin.pressureProfile)
+        self.tot, self.layer_cls = self.layers.scaled_totals(), ''
         # fitted subset (declaration order is the model's then the observation's, not ours) and priors
-        cands = self.CANDS[self.kind]
         k = rng.randint(1, min(4, len(cands)))
         chosen = rng.sample(cands, k)
+        if self.layered and not any(c in chosen for c in self.LAYER_CANDS):
+            chosen[0] = rng.choice(self.LAYER_CANDS)            # a layered world always fits the surface or the top value
+        self.mode = {n: sp for n, sp, _ in cands + self.OBS_CANDS}    # the parameter's mode
+        ext_name = None
+        if extreme:
+            # the parameter that gets boundaries at the far ends of the domain, through the route of this trace
+            want = 'lin' if extreme == 'set_mode-log' else 'log' if extreme in ('default-log-bounds', 'set_mode-linear') \
+                else None
+            pspace = 'lin' if extreme in ('set_mode-linear', 'uniform-bounds') else 'log'       # the space of the prior
+
+            def eligible(c):
+                return (want is None or c[1] == want) and (c[1] == pspace or c[0] in self.CROSS)
+            pool = [c for c in chosen if eligible(c)]
+            if not pool:
+                pool = [c for c in cands if c not in chosen and eligible(c)][:1]
+                chosen = chosen[:3] + pool
+            ext_name = pool[0][0]
         if self.obspar:
-            chosen = chosen[:3] + rng.choice([self.OBS_CANDS[:1], self.OBS_CANDS[1:], self.OBS_CANDS])
+            keep = [c for c in chosen if c[0] == ext_name]
+            chosen = (keep + [c for c in chosen if c[0] != ext_name])[:3] + \
+                rng.choice([self.OBS_CANDS[:1], self.OBS_CANDS[1:], self.OBS_CANDS])
             rng.shuffle(chosen)
         self.opt = make_optimizer(sampler, self.obs, self.model, tmpdir)
         self.pri = {}
+        self.route = {}
         for name, par in list(self.model.fittingParameters.items()):
             if par[5] and name not in [c[0] for c in chosen]:
                 self.opt.disable_fit(name)            # some parameters are fitted by default
@@ -562,6 +616,9 @@ class RealWorld(object):
             self.opt.enable_fit(name)
             if name in self.OBS_ROLE:
                 self.obs_setup.append(lambda name=name: self.opt.enable_fit(name))
+            if name == ext_name:
+                self.extreme_prior(name, space, (lo, hi), extreme)
+                continue
             style = rng.random()
             if style >= 0.7 and name in self.CROSS:
                 # a user prior in the other space than the parameter's mode (both directions)
@@ -602,13 +659,61 @@ class RealWorld(object):
                     self.pri[name] = ('gauss', mean, std)
         self.opt.compile_params()
         self.fit = [p[0] for p in self.opt.fitting_parameters]      # the optimizer's order
-        self.space = {n: s for n, s, _ in cands + self.OBS_CANDS}    # the parameter's mode
+        self.space = self.mode                                      # the parameter's mode (after set_mode, if used)
         self.cross = [n for n in self.fit if self.xspace[n] != self.space[n]]
-        self.unf = [n for n in self.TRACKED[self.kind] if n not in self.fit]
+        self.unf = [n for n in tracked if n not in self.fit]
         if self.obspar:
             self.unf += [n for n, _, _ in self.OBS_CANDS if n not in self.fit]
         self.unf_space = {n: ('log' if self.entry(n)[4] == 'log' else 'lin') for n in self.unf}
         self.bound = Bound(sampler, self.opt, tmpdir)
+
+    def is_gas(self, name):
+        return name in self.GASES or (name.split('_')[0] in self.GASES and name.split('_')[-1] in ('surface', 'top'))
+
+    def extreme_prior(self, name, space, rng_range, route):
+        """A prior whose boundaries lie at the far ends of the documented domain (trace-gas upper limits of 1e-15, 1e-30;
+        boundaries of 1e+20; negative / zero / large linear boundaries), built through one of the public routes:
+        the default prior of compile_params (set_boundary on a log-mode parameter; set_mode + set_boundary), and the
+        constructor keywords of the prior classes (bounds / lin_bounds, mean / lin_mean).  The points the likelihood is
+        evaluated at stay in the ordinary range of the parameter."""
+        from taurex.core.priors import Uniform, LogUniform, LogGaussian
+        rng = self.rng
+        a, b = rng.choice(self.EXTREME_LOW), rng.choice(self.EXTREME_HIGH)
+        if rng.random() < 0.5:
+            a, b = b, a                                          # boundaries may be given in either order
+        self.route[name] = route
+        log_range = rng_range if space == 'log' else self.CROSS.get(name)
+        lin_range = rng_range if space == 'lin' else self.CROSS.get(name)
+        if route == 'default-log-bounds':                        # compile_params: LogUniform(lin_bounds = boundaries)
+            self.opt.set_boundary(name, [10.0 ** a, 10.0 ** b])
+        elif route == 'loguniform-lin_bounds':
+            self.opt.set_prior(name, LogUniform(lin_bounds=[10.0 ** a, 10.0 ** b]))
+        elif route == 'loguniform-bounds':
+            self.opt.set_prior(name, LogUniform(bounds=[a, b]))
+        elif route == 'set_mode-log':                            # a linear-mode parameter switched to log mode
+            self.opt.set_mode(name, 'log')
+            self.opt.set_boundary(name, [10.0 ** a, 10.0 ** b])
+            self.mode = dict(self.mode, **{name: 'log'})
+        elif route == 'loggauss-lin_mean':
+            a, b = rng.choice(self.EXTREME_LOW + self.EXTREME_HIGH[2:]), rng.choice([0.125, 0.25, 0.5])
+            self.opt.set_prior(name, LogGaussian(lin_mean=10.0 ** a, lin_std=10.0 ** b))
+            self.pri[name] = ('loggauss', a, b)
+        if route in ('default-log-bounds', 'loguniform-lin_bounds', 'loguniform-bounds', 'set_mode-log'):
+            self.pri[name] = ('loguniform', a, b)
+        if route in ('set_mode-linear', 'uniform-bounds'):
+            a, b = rng.choice(self.EXTREME_LIN)
+            if rng.random() < 0.5:
+                a, b = b, a
+            if route == 'set_mode-linear':                       # a log-mode parameter switched to linear mode
+                self.opt.set_mode(name, 'linear')
+                self.opt.set_boundary(name, [a, b])
+                self.mode = dict(self.mode, **{name: 'lin'})
+            else:
+                self.opt.set_prior(name, Uniform(bounds=[a, b]))
+            self.pri[name] = ('uniform', a, b)
+            self.xspace[name], self.range[name] = 'lin', lin_range
+        else:
+            self.xspace[name], self.range[name] = 'log', log_range
 
     def build_observation(self):
         """A (new) observation of this world: bin layout, error bars, data = twin at the reference point + offsets;
@@ -617,11 +722,16 @@ class RealWorld(object):
         rng, wide = self.rng, self.wide
         self.nobs += 1
         # observation: bin layout (rows of an ArraySpectrum: wavelength, data, error, wavelength width)
+        fmt = '4col'
         if self.kind == 'wide':
             if self.nobs > 1:                  # the next observation of a re-used optimizer: any other layout class
                 wide = rng.choice([c for c in WIDE_CLASSES if c != self.layout])
             self.layout = wide
             wl, wlw = fn.survey_layout(rng) if wide == 'survey' else fg.wide_layout(rng, wide)
+            # the FORMAT of the observation (round 4): 3 columns (no widths: the library derives them from the centres, the
+            # derived bins overlap their neighbours), a second instrument observing part of the same range, bins contiguous
+            # in wavelength with a constant width (their wavenumber bins overlap by slivers)
+            fmt = self.fmt if (wide != 'survey' or self.fmt == '3col') else '4col'
         else:
             # (the second observation of a re-used optimizer: half of the time with the same number of bins)
             nb = len(self.bin_lo) if (self.nobs > 1 and rng.random() < 0.5) else rng.randint(3, 8)
@@ -629,10 +739,31 @@ class RealWorld(object):
             widths = np.array([rng.choice([20.0, 40.0, 60.0, 100.0, 150.0]) for _ in centres])
             wl = 10000.0 / centres
             wlw = 10000.0 / (centres - widths / 2) - 10000.0 / (centres + widths / 2)
-        probe = ArraySpectrum(np.stack([wl, np.zeros_like(wl), np.ones_like(wl), wlw], axis=1))
-        wl, wlw = probe.rawData[:, 0].copy(), probe.rawData[:, 3].copy()          # in the observation's own order
-        self.bin_lo = probe.wavenumberGrid - probe.binWidths / 2                  # the bins the observation reports
-        self.bin_hi = probe.wavenumberGrid + probe.binWidths / 2
+        if self.kind == 'wide' and not hasattr(self, 'full_native'):
+            for n, v in self.ref_values.items():
+                self.twin[n] = v
+            self.full_native = np.array(self.twin.model()[0], dtype=float)
+        base = (wl, wlw)
+        for attempt in (fmt, '4col'):
+            wl, wlw = base
+            if attempt == 'uniform-wl':
+                wl, wlw = fy.uniform_wl_layout(rng)
+            elif attempt == 'second-instrument':
+                wl, wlw, nextra = fy.add_second_instrument(rng, wl, wlw)
+                if nextra == 0:
+                    continue
+            cols = [wl, np.zeros_like(wl), np.ones_like(wl)] + ([] if attempt == '3col' else [wlw])
+            probe = ArraySpectrum(np.stack(cols, axis=1))
+            self.bin_lo = probe.wavenumberGrid - probe.binWidths / 2                  # the bins the observation reports
+            self.bin_hi = probe.wavenumberGrid + probe.binWidths / 2
+            # the licence of spec/LikeGrid.tla: every bin 1.5 native spacings inside the clip window of the code
+            # (and well inside the native grid: the bins a 3-column observation derives next to a gap can be very broad)
+            if attempt == '4col' or (fn.inside_window(self.full_native, self.bin_lo, self.bin_hi, probe.wavenumberGrid) and
+                                     self.bin_lo.min() > 1.1 * self.full_native.min() and
+                                     self.bin_hi.max() < 0.9 * self.full_native.max()):
+                break
+        self.fmt_used = attempt
+        raw = probe.rawData                                                           # in the observation's own order
         nb = len(wl)
         # error bars, data = twin at a reference point + offsets
         for n, v in self.ref_values.items():
@@ -640,12 +771,13 @@ class RealWorld(object):
         g, s, _, _ = self.twin.model()
         if self.kind == 'wide':
             ref = fg.overlap_mean(g, s, self.bin_lo, self.bin_hi)
+            self.overlap_cells = fy.max_overlap_cells(g, self.bin_lo, self.bin_hi)
             if not np.all(np.isfinite(ref)):
                 raise Machinery('wide layout has a bin outside the native grid')
             nat_lo, nat_hi = fg.native_bins(g)
             if not (self.bin_lo.min() - g.min() > 20 * (nat_hi[0] - nat_lo[0]) and
                     g.max() - self.bin_hi.max() > 20 * (nat_hi[-1] - nat_lo[-1])):
-                raise Machinery('the native grid is not much wider than the observation')
+                raise Machinery('the native grid is not much wider than the observation (%s, %s: %r .. %r)' % (self.layout, self.fmt_used, self.bin_lo.min(), self.bin_hi.max()))
             if self.layout == 'survey' and not fn.inside_window(g, self.bin_lo, self.bin_hi, probe.wavenumberGrid):
                 raise Machinery('survey layout outside the licensed clip window (LGInsideWindow)')
         else:
@@ -659,7 +791,7 @@ class RealWorld(object):
         if self.obspar:
             self.d0 = [int(round(float(v) / self.DUNIT)) for v in data]
             data = np.array(self.d0, dtype=float) * self.DUNIT
-        arr = np.stack([wl, data, err, wlw], axis=1)
+        arr = np.stack([raw[:, 0], data, err] + ([raw[:, 3]] if raw.shape[1] == 4 else []), axis=1)
         mk = fo.offset_scale_spectrum_class() if self.obspar else ArraySpectrum
         self.obs = mk(arr.copy())
         self.twin_obs = mk(arr.copy())
@@ -733,8 +865,11 @@ class RealWorld(object):
             lo, hi = self.range[n]
             r = self.rng.random()
             sp = self.xspace[n]                                            # space of the prior = of x
-            if n in self.GASES and r < 0.25:                           # mixing ratio near / above unity
+            if self.is_gas(n) and r < 0.25:                            # mixing ratio near / above unity (a layer-dependent
+                # profile: at the surface or at the top only, unless both values are pushed up)
                 x.append(self.rng.choice([0.0, 0.125, -0.125, 0.5] if sp == 'log' else [1.0, 1.125, 0.875, 1.5]))
+            elif self.is_gas(n) and sp == 'log' and r < 0.33:
+                x.append(self.rng.choice([-30.0, -20.0, -15.0, -13.0]))    # a trace gas at the far low end of the domain
             elif n == 'P_point1' and r < 0.2:
                 x.append(self.rng.choice([6.0, 6.5, -1.0, -1.5]))          # inverted pressure nodes
             elif n == 'T' and sp == 'lin' and r < 0.12:
@@ -746,6 +881,18 @@ class RealWorld(object):
         return x
 
     def oracle(self, x, inject):
+        """The twin's outcome, with the validity of the chemistry decided layer by layer from separate gas-profile
+        objects: an atmosphere whose non-fill gases sum above unity in SOME layer is invalid, whatever the twin says."""
+        oc, z, chi2 = self.oracle_twin(x, inject)
+        self.layers.set({n: (xi if self.pri[n][0] in ('uniform', 'gauss') else 10.0 ** xi)
+                         for n, xi in zip(self.fit, x) if self.is_gas(n)})
+        self.tot = self.layers.scaled_totals()
+        self.layer_cls = fy.layers_class(self.tot)
+        if self.layer_cls and oc in ('ok', 'NaNSome'):
+            oc, z, chi2 = 'InvalidChemistry', None, None
+        return oc, z, chi2
+
+    def oracle_twin(self, x, inject):
         """Independent evaluation: second instance, public model[param] = value API, the observation's
         own (second) binner, plain-Python Gaussian.  Returns (outcome, z of the comparable bins, chi2 over them);
         outcome = "ok" | exception class | "NaNAll" (no bin comparable) | "NaNSome"."""
@@ -811,14 +958,23 @@ def normal_quantile(u):
     return statistics.NormalDist().inv_cdf(u)
 
 
-def record_trace(ctx, rng, tid, sampler, tmpdir, ncalls, events, pyverdicts, wide=None):
-    w = RealWorld(rng, sampler, tmpdir, wide=wide)
+def record_trace(ctx, rng, tid, sampler, tmpdir, ncalls, events, pyverdicts, wide=None, fmt='4col', layered=None,
+                 extreme=None):
+    w = RealWorld(rng, sampler, tmpdir, wide=wide, fmt=fmt, layered=layered, extreme=extreme)
     base = dict(tid=tid, S=S)
     events.append(dict(base, ev='setup', id=len(events), kinds=w.kinds(), par=w.par_scaled(), nfit=len(w.fit),
                        proj=w.project(w.model, w.obs), sampler=sampler, cross=len(w.cross),
                        orole=w.roles(), d0=w.d0, off0=scaled(w.OBS_INIT['obs_offset']), sc0=scaled(w.OBS_INIT['obs_scale']),
-                       kind=w.kind, obspar=w.obspar, lp=w.log10_product))
-    cls0 = '%s:%s%s%s' % (sampler, w.kind, ':' + wide if wide else '', ':obs-params' if w.obspar else '')
+                       kind=w.kind, obspar=w.obspar, lp=w.log10_product, layered=w.layered or '', route=extreme or ''))
+
+    def fmt_class():
+        # the format / overlap class of the CURRENT observation of the wide world
+        if not wide or (w.fmt_used == '4col' and w.overlap_cells <= 1e-6):
+            return ''
+        return ':%s:%s' % (w.fmt_used, 'bins-overlap' if w.overlap_cells > 1 else
+                           'bins-overlap-by-slivers' if w.overlap_cells > 1e-6 else 'no-overlap')
+    world = w.kind + (':' + w.layered if w.layered else '')
+    cls0 = '%s:%s%s%s%s' % (sampler, world, ':' + wide if wide else '', fmt_class(), ':obs-params' if w.obspar else '')
     # half of the traces: ONE long-lived optimizer, pointed at a second observation half-way through
     switch_at = ncalls // 2 if rng.random() < 0.5 else -1
     for c in range(ncalls):
@@ -832,8 +988,9 @@ def record_trace(ctx, rng, tid, sampler, tmpdir, ncalls, events, pyverdicts, wid
                 pyverdicts.append(('never_raises', False, cls0 + ':set-observed', 'set_observed / compile_params / '
                                    'compute_fit on a re-used optimizer raised %r' % (e,), tid))
                 return
-            cls0 = '%s:%s%s%s:reused:%s-nbins' % (sampler, w.kind, ':' + w.layout if wide else '',
-                                                  ':obs-params' if w.obspar else '', 'same' if len(w.bin_lo) == nb0 else 'other')
+            cls0 = '%s:%s%s%s%s:reused:%s-nbins' % (sampler, world, ':' + w.layout if wide else '', fmt_class(),
+                                                    ':obs-params' if w.obspar else '',
+                                                    'same' if len(w.bin_lo) == nb0 else 'other')
             if why:
                 pyverdicts.append(('prior_in_fit_order', False, cls0, why, tid))
                 return
@@ -842,10 +999,14 @@ def record_trace(ctx, rng, tid, sampler, tmpdir, ncalls, events, pyverdicts, wid
         # the first call on a survey-size observation and the first call after set_observed: a log-likelihood call at
         # the low end of every prior range (a valid atmosphere in the wide world), so that these classes never stay empty
         safe = c == switch_at or (c == 0 and w.layout == 'survey')
-        if not safe and rng.random() < 0.3:
+        # a trace with boundaries at the far ends of the domain: the prior callback at both corners of the unit cube
+        corner = c - 1 if (extreme and c in (1, 2) and not safe) else None
+        if corner is not None or (not safe and rng.random() < 0.3):
             den = rng.choice([2, 4, 8, 16])
             u = [Fraction(rng.randint(1, den - 1), den) if w.pri[n][0] in ('gauss', 'loggauss')
                  else Fraction(rng.randint(0, den), den) for n in w.fit]
+            if corner is not None:
+                u = [Fraction(1 + 2 * corner, 4) if w.pri[n][0] in ('gauss', 'loggauss') else Fraction(corner, 1) for n in w.fit]
             try:
                 out = w.bound.prior([float(v) for v in u])
             except Exception as e:   # noqa
@@ -853,14 +1014,16 @@ def record_trace(ctx, rng, tid, sampler, tmpdir, ncalls, events, pyverdicts, wid
                 return
             z = [normal_quantile(float(v)) if w.pri[n][0] in ('gauss', 'loggauss') else 0.0 for v, n in zip(u, w.fit)]
             events.append(dict(base, ev='prior', id=len(events), u=[[v.numerator, v.denominator] for v in u],
-                               z=[scaled(v) for v in z], out=[scaled(v) for v in out]))
+                               z=[scaled(v) for v in z], out=[scaled(v) for v in out],
+                               routes=sorted(w.route.values())))
             # sharp comparison, Python side
             for n, ui, zi, oi in zip(w.fit, u, z, out):
                 kind, a, b = w.pri[n]
                 exp = (min(a, b) + float(ui) * abs(b - a)) if kind in ('uniform', 'loguniform') else a + b * zi
                 pyverdicts.append(('prior_value_1e-9', close(oi, exp, rel=REL, abs_=1e-12),
-                                   '%s:prior:%s' % (cls0, kind), 'prior %s(%r,%r) at u=%s: got %r expected %r' %
-                                   (kind, a, b, ui, oi, exp), tid))
+                                   '%s:prior:%s%s' % (cls0, kind, ':far-boundaries:' + w.route[n] if n in w.route else ''),
+                                   'prior %s(%r,%r)%s of %s at u=%s: got %r expected %r' %
+                                   (kind, a, b, ' built through ' + w.route[n] if n in w.route else '', n, ui, oi, exp), tid))
             continue
         x = w.random_x()
         if c > 2 and rng.random() < 0.15 and w.last_valid_x is not None:
@@ -896,8 +1059,11 @@ def record_trace(ctx, rng, tid, sampler, tmpdir, ncalls, events, pyverdicts, wid
         events.append(dict(base, ev='like', id=len(events), x=[scaled(v) for v in x], before=before, after=after,
                            oc=oc, ret=kind, chi=chi_obs, zs=zs, big=big, dat8=w.data_side(x) if w.obspar else [],
                            moved=bool(w.obspar) and w.data_side(x) != [8 * d for d in w.d0], nobs=w.nobs,
-                           lp=w.log10_product))
-        label = ('inject-%s:' % inject if inject else '') + ('valid' if oc == 'ok' else oc)
+                           lp=w.log10_product, tot=w.tot, TS=fy.TOT_UNIT, lcls=w.layer_cls, fmt=w.fmt_used if wide else '',
+                           ovl=w.overlap_cells if wide else 0.0,
+                           far=any(w.is_gas(n) and w.xspace[n] == 'log' and xi < -12.5 for n, xi in zip(w.fit, x))))
+        label = ('inject-%s:' % inject if inject else '') + ('valid' if oc == 'ok' else oc) + \
+            (':' + w.layer_cls if w.layer_cls else '')
         cls = '%s:%s%s' % (cls0, label, ':cross-space' if w.cross else '')
         if exc is not None:
             pyverdicts.append(('never_raises', False, cls, 'loglike(%r) raised %r' % (x, exc), tid))
@@ -929,12 +1095,20 @@ def run_traces(ctx, ntraces, ncalls):
         for tid in range(ntraces):
             # every third group of three traces (one per sampler) lives in the wide world, layout classes in turn
             wide = WIDE_CLASSES[(tid // 9) % len(WIDE_CLASSES)] if (tid // 3) % 3 == 2 else None
-            record_trace(ctx, rng, tid, SAMPLERS[tid % 3], tmpdir, ncalls, events, pyv, wide=wide)
+            # (round 4) the observation formats of the wide world in turn; every second group of narrow traces has a
+            # layer-dependent gas profile; every fifth trace has prior boundaries at the far ends of the domain, the
+            # public routes that build such a prior in turn
+            fmt = fy.FORMATS[(tid % 3 + tid // 9) % len(fy.FORMATS)] if wide else '4col'
+            layered = fy.PROFILES[(tid // 9 + tid) % len(fy.PROFILES)] if (tid // 3) % 3 == 1 else None
+            extreme = RealWorld.EXTREME_ROUTES[(tid // 5) % len(RealWorld.EXTREME_ROUTES)] if tid % 5 == 2 else None
+            record_trace(ctx, rng, tid, SAMPLERS[tid % 3], tmpdir, ncalls, events, pyv, wide=wide, fmt=fmt, layered=layered,
+                         extreme=extreme)
     finally:
         shutil.rmtree(tmpdir, ignore_errors=True)
     for clause, ok, cls, detail, tid in pyv:
         ctx.verdict(clause, ok, cls=cls, detail=detail, vector=dict(kind='trace', seed=ctx.seed, tid=tid, ntraces=ntraces, ncalls=ncalls))
-    slim = [{k: v for k, v in e.items() if k not in ('sampler', 'cross', 'kind', 'obspar', 'lp', 'nb0', 'nb', 'moved', 'nobs')} for e in events]
+    slim = [{k: v for k, v in e.items() if k not in ('sampler', 'cross', 'kind', 'obspar', 'lp', 'nb0', 'nb', 'moved', 'nobs',
+                                                      'layered', 'route', 'routes', 'lcls', 'fmt', 'ovl', 'far')} for e in events]
     accepted, bad, res = validate_trace('Trace_Likelihood', 'Trace_Likelihood.cfg', slim)
     ctx.add_tlc('trace', res, counts=False)
     if res.postcondition_false and not bad:
@@ -992,6 +1166,30 @@ def run_traces(ctx, ntraces, ncalls):
                                      len(extreme_samplers) < 3):
         raise Machinery('trace generator: too few re-used optimizers / survey-size observations (%d/%d/%d/%r)' %
                         (len(switches), len(after), len(after_inv), sorted(extreme_samplers)))
+    # the classes added after the fourth round of seeded changes: atmospheres above unity in SOME layers only (layer-
+    # dependent gas profiles), observations whose bins overlap each other (3 columns, a second instrument, slivers),
+    # priors whose boundaries lie at the far ends of the domain (every route), trace gases at 1e-13 .. 1e-30
+    some = [e for e in likes if e['lcls'] == 'some-layers-above-unity']
+    allv = [e for e in likes if e['lcls'] == 'all-layers-above-unity']
+    lay_ok = [e for e in likes if setups[e['tid']]['layered'] and e['oc'] == 'ok']
+    ovl_big = [e for e in likes if e['oc'] == 'ok' and e['ovl'] > 1]
+    ovl_sliver = [e for e in likes if e['oc'] == 'ok' and 1e-6 < e['ovl'] <= 1]
+    col3 = {e['tid'] for e in likes if e['fmt'] == '3col' and e['oc'] == 'ok'}
+    priors = [e for e in events if e['ev'] == 'prior']
+    far_pr = [e for e in priors if e['routes'] and min(e['out']) < -12 * S - 1]
+    far_routes = {r for e in priors for r in e['routes']}
+    far_x = [e for e in likes if e['far'] and e['oc'] == 'ok']
+    ctx.note('real-model traces: %d calls with SOME layers above unity (%d with all layers), %d valid calls on layer-'
+             'dependent profiles; %d / %d valid calls on observations whose bins overlap by more than a native cell / by '
+             'slivers, %d 3-column observations; %d prior calls below 1e-12 through the routes %s; %d valid calls with a trace '
+             'gas below 10^-12.5' % (len(some), len(allv), len(lay_ok), len(ovl_big), len(ovl_sliver), len(col3), len(far_pr),
+                                     sorted(far_routes), len(far_x)))
+    if not ctx.has_violations() and (len(some) < 3 or len(allv) < 1 or len(lay_ok) < 5 or len(ovl_big) < 3 or
+                                     len(ovl_sliver) < 3 or len(col3) < 2 or len(far_pr) < 3 or len(far_routes) < 5 or
+                                     len(far_x) < 2):
+        raise Machinery('trace generator: too few calls of the layered / overlapping-bins / far-boundary classes '
+                        '(%d/%d/%d %d/%d/%d %d/%d/%d)' % (len(some), len(allv), len(lay_ok), len(ovl_big), len(ovl_sliver),
+                                                         len(col3), len(far_pr), len(far_routes), len(far_x)))
     ctx.add_sample(dict(trace_event=next(e for e in slim if e['ev'] == 'like' and e['ret'] == 'num')))
     # canaries: corrupt one field of accepted events; TLC must reject
     goodl = [e for e in slim if e['ev'] == 'like' and e['tid'] not in badt and e['ret'] == 'num' and not e['big']]
@@ -1014,9 +1212,17 @@ def run_traces(ctx, ntraces, ncalls):
         kinds = kinds + ('setobs',)
     elif not ctx.has_violations():
         raise Machinery('no accepted set_observed event for the canary')
+    # (round 4) one layer above unity scored with a finite likelihood; a log prior floored at 1e-12
+    kinds = kinds + ('layers',)
+    goodp = [e for e in slim if e['ev'] == 'prior' and e['tid'] not in badt and min(e['out']) < -12 * S - 1]
+    if goodp:
+        kinds = kinds + ('prior_floor',)
+    elif not ctx.has_violations():
+        raise Machinery('no accepted prior event below 1e-12 for the canary')
     batch = []
     for k, which in enumerate(kinds):
-        pool = goodn if which == 'finite_for_invalid' else goodd if which == 'data' else goods if which == 'setobs' else goodl
+        pool = goodn if which == 'finite_for_invalid' else goodd if which == 'data' else goods if which == 'setobs' else \
+            goodp if which == 'prior_floor' else goodl
         e0 = pool[len(pool) // 2]
         tr = [dict(e, tid=900000 + k) for e in slim if e['tid'] == e0['tid'] and e['id'] <= e0['id']]
         c = tr[-1]
@@ -1028,6 +1234,10 @@ def run_traces(ctx, ntraces, ncalls):
         elif which == 'data':
             c['dat8'] = list(c['dat8'])
             c['dat8'][0] += 8              # the data side of one bin off by one unit (1e-7): e.g. a stale offset
+        elif which == 'layers':
+            c['tot'] = list(c['tot'][:-1]) + [3 * c['TS']]
+        elif which == 'prior_floor':
+            c['out'] = [max(v, -12 * S) for v in c['out']]
         elif which == 'setobs':
             c['proj'] = list(c['proj'])
             c['proj'][c['keep'].index(1)] += 5          # set_observed disturbed a parameter of the forward model
@@ -1100,7 +1310,9 @@ def run(ctx):
         behaviours='TLC -simulate, depth %d, three samplers, natural + injected invalid models' % (9 if q else 12),
         grid='native lattice of 57 points (spacing 1, 2, 3) much wider than the observation; layout families geo / rev '
              '(contiguous, widths growing / shrinking up to 9x), gap, phot (narrow bins + one broad photometric bin beyond a '
-             'gap), two (two instruments); %s; margin rules max (code) / first / last / min / halfmax'
+             'gap), two (two instruments), ovl (bins overlapping each other inside the window: two instruments over the '
+             'same range, a band on top of spectral bins, the same band twice, contiguous bins widened by slivers; native '
+             'spacing 1 and 2); %s; margin rules max (code) / first / last / min / halfmax; bin search each (code) / resume'
              % ('2 starts x lengths 3, 5, a = 3' if q else '4 starts x lengths 3-6, a = 0, 1, 3'),
         observation_parameters='toy world "obs": offset (lin) and scale (log) fitted on the observation, all vectors x '
                                'fault classes x call sequences; real traces: OffsetScaleSpectrum (offset in ppm, scale), '
@@ -1117,6 +1329,14 @@ def run(ctx):
         wide_traces='a third of the real-model traces: CO2 + CO on an 800-point constant-R native grid 0.3-25 micron, '
                     'observations: constant R 8-20 over 0.4-12 micron, the same with gaps, R 30-45 spectrograph + 1-3 '
                     'broad photometric bands, two instruments (R 30-40 and R 5-7); heteroscedastic errors',
+        layers_formats_boundaries='a third of the narrow traces: H2O as TwoLayerGas / TwoPointGas (surface / top value '
+                                  'fitted; above unity at the surface only, at the top only, everywhere); wide traces: '
+                                  'observation formats 4 columns / 3 columns (widths derived from the centres) / a second '
+                                  'instrument over part of the range / contiguous constant-width wavelength bins; every fifth '
+                                  'trace: prior boundaries 1e-30 .. 1e+20 (linear: negative, zero, 2e4) through set_boundary, '
+                                  'set_mode + set_boundary, Uniform(bounds), LogUniform(bounds | lin_bounds), '
+                                  'LogGaussian(lin_mean, lin_std), prior callback at both corners of the cube; trace gases at '
+                                  '1e-13 .. 1e-30',
         traces='real TransmissionModel (isothermal / N-point; H2O, CH4), 3-8 random bins, 1-4 fitted parameters, '
                'Uniform/LogUniform/Gaussian/LogGaussian priors (default, same space as the mode, other space), points on '
                'a 1/8 grid; invalid: mixing ratio >= 1, inverted nodes, T <= 0 / negative radius (all-NaN spectrum), '
@@ -1134,6 +1354,10 @@ def run(ctx):
         'layouts whose bins reach outside the window [cmin - W, cmax + W] of clip_native_to_wngrid (W: widest mid-point '
         'width of the centres) are not judged: refuted at design level, observed on the code, reported as a finding',
         'an observation parameter that changes errorBar (not spectrum) is outside the generated classes',
+        'per-layer totals of the non-fill gases: the library\'s gas-profile classes (ConstantGas, TwoLayerGas, TwoPointGas) '
+        'evaluated on separate objects on the model\'s pressure grid; the validity decision of TaurexChemistry is not consulted',
+        'observation formats other than 4 columns are generated only where every reported bin lies 1.5 native spacings '
+        'inside the clip window (LGInsideWindow), else the 4-column layout is used',
         're-use of an optimizer = set_observed(new) ; (settings of the new observation\'s own parameters applied again) ; '
         'compile_params() ; compute_fit(): callbacks of an earlier compute_fit are not used after set_observed',
         'survey-size wide layouts keep every bin 1.5 native spacings inside the clip window of the code (bins at least 3.6 '
@@ -1182,6 +1406,13 @@ def run(ctx):
         # design-level finding: a broad bin reaching beyond the window computed from the centres (overlapping bins)
         (ctx.expect_refuted, ('any-layout-overlapping-broad-bins', 'MC_LikeGrid', 'MC_LikeGrid_ref_anylayout.cfg',
                               'LikelihoodOfFullGrid'), {}),
+        # (round 4) bins that overlap each other inside the window: a binner whose search for the native cells of a bin
+        # resumes at the last cell the previous bin used
+        (ctx.expect_refuted, ('binner-search-resumes-after-previous-bin', 'MC_LikeGrid', 'MC_LikeGrid_ref_resume.cfg',
+                              'LikelihoodOfFullGrid'), dict(workers=1)),
+        # (round 4) an atmosphere rejected only when EVERY layer is above unity
+        (ctx.expect_refuted, ('invalid-only-if-all-layers-above-unity', 'MC_Likelihood', 'MC_Likelihood_alllayers.cfg',
+                              'InvalidNeverFinite'), dict(workers=1)),
     ]
     if not q:
         design.insert(2, (ctx.check_spec, ('exhaustive-three', 'MC_Likelihood', 'MC_Likelihood_thorough.cfg'), acts))
@@ -1198,11 +1429,12 @@ def run(ctx):
         # non-vacuity: the generated observations do drive the product of the error bars out of binary64
         design.append((ctx.expect_refuted, ('observations-beyond-the-range-of-the-product', 'MC_LikeNorm',
                                             'MC_LikeNorm_ref_smallonly.cfg', 'ProductRepresentable'), dict(workers=1)))
-    pool = ThreadPoolExecutor(max_workers=2)
-    futures = [pool.submit(f, *a, **k) for f, a, k in design]
+    pool = ThreadPoolExecutor(max_workers=3)
+    # the layouts of MC_LikeGrid are exported by a design-level run too: started first, its vectors are bound last
+    grid_cfg = 'MC_LikeGrid_quick.cfg' if q else 'MC_LikeGrid_thorough.cfg'
+    grid_run = pool.submit(ctx.check_spec, 'exhaustive-likegrid', 'MC_LikeGrid', grid_cfg)
+    futures = [grid_run] + [pool.submit(f, *a, **k) for f, a, k in design]
     try:
-        # observation layouts on a native grid much wider than the observation: clipping contract + exported vectors
-        run_grid_vectors(ctx, 'MC_LikeGrid_quick.cfg' if q else 'MC_LikeGrid_thorough.cfg')
         # observations of any size and magnitude: the normalisation term
         run_norm_vectors(ctx, 'MC_LikeNorm_quick.cfg' if q else 'MC_LikeNorm_thorough.cfg')
         n = run_behaviours(ctx, 30 if q else 300, 9 if q else 12,
@@ -1212,6 +1444,8 @@ def run(ctx):
         n = run_optimizer_history(ctx, 6 if q else 30)
         ctx.note('replayed %d TLC-generated walks over the settings of a re-used optimizer' % n)
         run_traces(ctx, 45 if q else 600, 14 if q else 20)
+        # observation layouts on a native grid much wider than the observation: clipping contract + exported vectors
+        run_grid_vectors(ctx, grid_cfg, res=grid_run.result())
         observe_overlapping(ctx)
     except BaseException:
         for f in futures:
